@@ -161,6 +161,9 @@ __attribute__((noinline)) void run_float(long id, const char *desc, ld k1, ld k2
         if (std::fabs(A - B) > 2 * (tolA + tolB)) {
             if (lt != (A < B) || gt != (A > B) || eq) mismatch("compare", a, b, (int)lt, (int)(A < B));
         } else g_st.skipped_band++;
+#if VF_HAS_SPACESHIP
+        { int s3 = 9; VF_PHASE(vf::PH_OPERATION) { s3 = spaceship(qa, qb); } int w = lt ? -1 : (gt ? 1 : (eq ? 0 : 2)); if (s3 != w) mismatch("<=>", a, b, s3, w); }
+#endif
         C s{}, d{};
         VF_PHASE(vf::PH_OPERATION) { s = (qa + qb).coerce_in(CU{}); d = (qa - qb).coerce_in(CU{}); }
         // each operand conversion may be off by ~1.5 ulp of itself, the final operation by 0.5 ulp of the result
@@ -168,6 +171,29 @@ __attribute__((noinline)) void run_float(long id, const char *desc, ld k1, ld k2
         if (!(std::fabs((ld)s - (A + B)) <= tol_s)) mismatch("+", a, b, s, (C)(A + B));
         if (!(std::fabs((ld)d - (A - B)) <= tol_d)) mismatch("-", a, b, d, (C)(A - B));
     });
+    // special values: signed zeros, NaN, infinities on either side.  No exact value is judged here; the six comparisons must be
+    // mutually consistent and (C++20) <=> must say exactly what they say (unordered when none of <, ==, > holds)
+    {
+        const R1 sa[] = {R1(0), -R1(0), R1(1), -R1(1), std::numeric_limits<R1>::quiet_NaN(), std::numeric_limits<R1>::infinity(), -std::numeric_limits<R1>::infinity(), std::numeric_limits<R1>::denorm_min()};
+        const R2 sb[] = {R2(0), -R2(0), R2(1), -R2(1), std::numeric_limits<R2>::quiet_NaN(), std::numeric_limits<R2>::infinity(), -std::numeric_limits<R2>::infinity(), std::numeric_limits<R2>::denorm_min()};
+        static const R1 *psa; static const R2 *psb;
+        psa = sa; psb = sb;
+        vf::run_loop(0, 64, [&](u64 idx) {
+            const R1 a = vf::launder(psa[idx / 8]); const R2 b = vf::launder(psb[idx % 8]);
+            auto qa = au::make_quantity<U1>(a); auto qb = au::make_quantity<U2>(b);
+            bool lt = false, gt = false, eq = false, le = false, ge = false, ne = false;
+            VF_PHASE(vf::PH_OPERATION) { eq = qa == qb; ne = qa != qb; lt = qa < qb; le = qa <= qb; gt = qa > qb; ge = qa >= qb; }
+            g_st.evals++;
+            const bool nan = (a != a) || (b != b);
+            if (ne == eq || le != (lt || eq) || ge != (gt || eq) || (lt && gt) || (nan && (lt || gt || eq))) mismatch("inconsistent-compare(special)", a, b, (int)lt, (int)gt);
+            // both zero (any signs): equal; zero vs a non-zero finite or infinite value: ordered by the sign of the other operand
+            if (!nan && a == 0 && b == 0 && !eq) mismatch("==(zeros)", a, b, (int)eq, 1);
+            if (!nan && a == 0 && b != 0 && (lt != (b > 0) || gt != (b < 0))) mismatch("compare(zero,x)", a, b, (int)lt, (int)(b > 0));
+#if VF_HAS_SPACESHIP
+            { int s3 = 9; VF_PHASE(vf::PH_OPERATION) { s3 = spaceship(qa, qb); } int w = lt ? -1 : (gt ? 1 : (eq ? 0 : 2)); if (s3 != w) mismatch("<=>(special)", a, b, s3, w); }
+#endif
+        });
+    }
     printf("{\"ev\":\"mixed\",\"id\":%ld,\"desc\":\"%s\",\"evals\":%llu,\"in_domain\":%llu,\"out_of_domain\":%llu,\"band\":%llu,\"mm\":%llu,\"spaceship\":0,\"wit\":[", id, desc,
            (unsigned long long)g_st.evals, (unsigned long long)g_st.in_domain, (unsigned long long)g_st.out_of_domain, (unsigned long long)g_st.skipped_band, (unsigned long long)g_st.mm);
     for (int i = 0; i < g_st.nwit; ++i)
